@@ -2,8 +2,10 @@
 // paths, reuse after reset.
 //
 // A case is a random operation sequence applied in lockstep to
-//   A (AddRecord only), B (AddRecordWithExtraElements(k)), V (AddRecordV2), M (random path
-//   per add; long-lived: reused across all cases of the batch through ResetSet)
+//
+//	A (AddRecord only), B (AddRecordWithExtraElements(k)), V (AddRecordV2), M (random path
+//	per add; long-lived: reused across all cases of the batch through ResetSet)
+//
 // and, after every operation, to a fresh set F that replays the operations since the
 // last reset. After every operation all five must report the same length, the length
 // model (4 + sum of refipfix encodings) must agree, and serialisation through
@@ -64,6 +66,7 @@ func mkElems(o op, template bool) []entities.InfoElementWithValue {
 }
 
 type model struct {
+	hdrLen   uint16 // length field of the set header: written by UpdateLenInHeader only
 	prepared bool
 	template bool
 	tid      uint16
@@ -217,6 +220,7 @@ func main() {
 					paths[o.Path] = true
 				case "update":
 					since = append(since, o)
+					m.hdrLen = uint16(m.length())
 				}
 				sets := []entities.Set{A, B, V, M}
 				for si, s := range sets {
@@ -280,6 +284,21 @@ func main() {
 						c.Violation(k, "sumlength", fmt.Sprintf("%s set: 4+sum(record lengths)=%d, reported %d", names[si], sum, s.GetSetLength()), word)
 						bad = true
 					}
+					// the 4-byte set header: id written by PrepareSet, length only by UpdateLenInHeader;
+					// a reset (or new) set has a zero header
+					wantHdr := make([]byte, 4)
+					if m.prepared {
+						id := uint16(2)
+						if !m.template {
+							id = m.tid
+						}
+						binary.BigEndian.PutUint16(wantHdr[0:2], id)
+					}
+					binary.BigEndian.PutUint16(wantHdr[2:4], m.hdrLen)
+					if hb := s.GetHeaderBuffer(); !bytes.Equal(hb, wantHdr) {
+						c.Violation(k, "set-header", fmt.Sprintf("after op %d (%s): %s set header is %x, a new set replaying the operations since the last reset has %x", i, o, names[si], hb, wantHdr), word)
+						bad = true
+					}
 					if !m.prepared {
 						continue
 					}
@@ -289,8 +308,7 @@ func main() {
 							bad = true
 						}
 					}
-					// serialise a copy of the state: UpdateLenInHeader is what SendSet does first
-					s.UpdateLenInHeader()
+					// serialise the set as it is (CreateIPFIXMsg is exported and does not touch the set header)
 					msg, err := serialize(s)
 					if wantLen+16 > 65535 {
 						if err == nil {
@@ -315,6 +333,7 @@ func main() {
 							id = m.tid
 						}
 						ref = refipfix.BuildMessage(0x01020304, 77, 1700000000, id, bytes.Join(m.recs, nil))
+						binary.BigEndian.PutUint16(ref[18:20], m.hdrLen) // the header carries the length as of the last UpdateLenInHeader
 					}
 					if !bytes.Equal(msg, ref) {
 						c.Violation(k, "serialized-bytes", fmt.Sprintf("after op %d (%s): %s set serialises differently from the reference (%d vs %d bytes)", i, o, names[si], len(msg), len(ref)), word)
